@@ -260,3 +260,683 @@ def c18(tier, replay=None):
 
 
 REGISTRY.update({'C03': c03, 'C18': c18})
+
+
+# ---------------------------------------------------------------------------
+# Run histories: Evolver.tla / EvolverGen.tla / EvolverTrace.tla + runs engine
+
+def _select_histories(recs, limit, rng, want_fault=None, min_runs=1):
+    pool = []
+    for r in recs:
+        hist = r['hist']
+        nruns = sum(1 for op in hist if op['op'] == 'run')
+        has_fault = any(op['op'] == 'fault' for op in hist)
+        if nruns < min_runs:
+            continue
+        if want_fault is True and not has_fault:
+            continue
+        if want_fault is False and has_fault:
+            continue
+        pool.append(r)
+    rng.shuffle(pool)
+    # prefer longer histories: they contain the shorter ones as prefixes
+    pool.sort(key=lambda r: -len(r['hist']))
+    return pool[:limit]
+
+
+def _run_histories(report, tier, maxver, maxruns, limit, faults, want_fault=None,
+                   variant=0, extend=None):
+    """Generate histories with TLC, replay them, validate all traces.
+    Returns list of (history record, [run records], [trace verdicts])."""
+    import random
+    from concurrent.futures import ThreadPoolExecutor
+    from .common import seed
+    from .engines import runs
+    rng = random.Random(seed() * 7907 + maxver * 31 + maxruns)
+    gen = runs.generate_histories(report, maxver, maxruns, faults=faults)
+    chosen = _select_histories(gen, limit, rng, want_fault=want_fault)
+    if extend:
+        chosen = [extend(r) for r in chosen]
+    histories = runs.make_histories(maxver, variant=variant)
+    oracles = runs.Oracles(histories)
+    oracles.compute()
+
+    def one(rec):
+        import copy
+        return runs.execute_history(rec['hist'], histories, oracles)
+    with ThreadPoolExecutor(12) as ex:
+        results = list(ex.map(one, chosen))
+    traces = []
+    index = []
+    for hi, runrecs in enumerate(results):
+        for ri, rr in enumerate(runrecs):
+            if 'trace' in rr:
+                index.append((hi, ri))
+                traces.append(rr['trace'])
+    verdicts = runs.validate_traces(report, traces, maxver)
+    for (hi, ri), v in zip(index, verdicts):
+        results[hi][ri]['verdict'] = v
+    report.coverage['traces_validated_against_impl'] += len(traces)
+    return chosen, results, histories, oracles, len(gen)
+
+
+def _hist_label(hist):
+    out = []
+    for op in hist:
+        if op['op'] == 'deploy':
+            out.append('deploy(%s@%d)' % (op['app'], op['ver']))
+        elif op['op'] == 'run':
+            out.append('run[%s]' % op['drv'])
+        elif op['op'] == 'fault':
+            out.append('fault(%s,%s,%d)' % (op['phase'], op['app'], op['stmt']))
+        else:
+            out.append(op['op'])
+    return ' '.join(out)
+
+
+def _trace_rejections(report, prop, chosen, results):
+    """A trace the deviation-enabled specification cannot explain is a
+    spec/code disagreement: reported as drift unless the property's own oracle
+    also fails (handled by the judges)."""
+    n = 0
+    for rec, runrecs in zip(chosen, results):
+        for rr in runrecs:
+            v = rr.get('verdict')
+            if v and v['reached'] < v['length']:
+                n += 1
+                ev = rr['trace']['events']
+                report.spec_drift(
+                    'EvolverTrace rejects a recorded run at event %d (%s) after pc=%s: %s'
+                    % (v['reached'] + 1, ev[v['reached']]['ev'],
+                       v['pcs'].get(v['reached']), _hist_label(rec['hist'])),
+                    {'event': ev[v['reached']],
+                     'prefix': [e['ev'] for e in ev[:v['reached']]]})
+    return n
+
+
+def _clause_hits(rr, clause):
+    v = rr.get('verdict')
+    if not v:
+        return False
+    return any(clause in s for s in v['viol'].values())
+
+
+def c04(tier, replay=None):
+    from .dbproj import diff_schema, schema_of
+    report = Report('C04', tier)
+    maxver, maxruns, limit = (2, 3, 40) if tier == 'quick' else (3, 4, 400)
+    chosen, results, histories, oracles, ngen = _run_histories(
+        report, tier, maxver, maxruns, limit, faults=False)
+    nontrivial = set()
+    for rec, runrecs in zip(chosen, results):
+        label = _hist_label(rec['hist'])
+        report.coverage['evaluations'] += 1
+        if sum(1 for op in rec['hist'] if op['op'] == 'run') >= 2:
+            nontrivial.add(label)
+        for ri, rr in enumerate(runrecs):
+            if 'crash' in rr:
+                report.notes.append('runner crash: %s' % rr['crash'].get('stderr', '')[-300:])
+                continue
+            if 'summary' not in rr:
+                continue
+            s = rr['summary']
+            code = rr['code']
+            detail = {'history': label, 'run': ri, 'code': code, 'post': rr.get('post'),
+                      'outcome': s['outcome'], 'error': s['error_msg']}
+            if s['outcome'] != 'ok':
+                if s['error'] in ('CommandError',) and 'cannot resolve' in (s['error_msg'] or ''):
+                    cls = 'upgrade-rejected'
+                else:
+                    cls = 'upgrade-failed'
+                report.fail({'class': cls, 'driver': rr['drv'],
+                             'spec_clause': _clause_hits(rr, 'Converged')}, detail)
+                continue
+            # the property's own oracle: every installed app is at its deployed
+            # version in tables, stored signature and recorded labels
+            post = rr['post']
+            for a, v in code.items():
+                if v < 0:
+                    continue
+                if post['tab'][a] != v:
+                    sd = diff_schema(oracles.schema[(a, v)],
+                                     {t: x for t, x in schema_of(rr['db']).items()
+                                      if t.startswith(histories[a].app + '_')})
+                    report.fail({'class': 'schema-differs-from-fresh', 'driver': rr['drv']},
+                                dict(detail, app=a, diff=sd))
+                if post['stored'][a] != v:
+                    # known scenario: tables created by an earlier failed run
+                    report.fail({'class': 'stored-signature-not-current',
+                                 'driver': rr['drv'],
+                                 'tables_preexisted': rr['pre']['tab'][a] >= 0 and
+                                 rr['pre']['stored'][a] == -1}, dict(detail, app=a))
+                labels = sorted(r[1] for r in post['evo'] if r[0] == a)
+                if labels != list(range(1, v + 1)):
+                    report.fail({'class': 'recorded-labels-differ', 'driver': rr['drv'],
+                                 'duplicates': len(labels) != len(set(labels))},
+                                dict(detail, app=a, labels=labels))
+            if _clause_hits(rr, 'Converged') is False and False:
+                pass
+        # a further run after the last one: nothing required, nothing written
+        report.sample({'history': label,
+                       'runs': [{'code': rr.get('code'), 'outcome': rr.get('summary', {}).get('outcome'),
+                                 'post': rr.get('post')} for rr in runrecs]})
+    _trace_rejections(report, 'C04', chosen, results)
+    # re-run is a no-op: exercised on converged final states through both drivers
+    _rerun_check(report, chosen, results, histories, oracles, tier)
+    report.coverage['distinct_nontrivial'] = len(nontrivial)
+    report.coverage['exhaustive'] = len(chosen) == ngen
+    report.coverage['rule'] = (
+        'TLC explores Evolver.tla (2 apps, MaxVer=%d, <=%d runs, drivers api/cmd, no faults) and '
+        'prints one history per reachable idle state (VIEW hides the history variable); %d of %d '
+        'histories were replayed on a synthetic project (chain-family evolutions), every run traced '
+        'and validated by EvolverTrace, and each completed run judged against the fresh-install '
+        'oracle. Non-trivial = at least two runs; distinct = distinct history.'
+        % (maxver, maxruns, len(chosen), ngen))
+    report.assumptions += ['chain-family evolutions (histories.py) make version numbers exact',
+                           'fresh-install oracle computed by a real fresh install per version']
+    return report.finish()
+
+
+def _rerun_check(report, chosen, results, histories, oracles, tier):
+    """After a converged history: get_evolution_required() false, empty diff,
+    and the evolve command writes nothing."""
+    from concurrent.futures import ThreadPoolExecutor
+    from .djproj import Project
+    from .engines import runs
+    picks = []
+    for rec, runrecs in zip(chosen, results):
+        if runrecs and runrecs[-1].get('summary', {}).get('outcome') == 'ok':
+            picks.append(rec)
+    picks = picks[:12 if tier == 'quick' else 80]
+
+    def one(rec):
+        hist = list(rec['hist']) + [{'op': 'run', 'drv': 'cmd'}]
+        out = runs.execute_history(hist, histories, oracles)
+        return rec, out
+    with ThreadPoolExecutor(12) as ex:
+        for rec, out in ex.map(one, picks):
+            last = out[-1]
+            if 'summary' not in last:
+                continue
+            report.coverage['evaluations'] += 1
+            s = last['summary']
+            prev = out[-2]['post'] if len(out) >= 2 and 'post' in out[-2] else None
+            converged = prev is not None and all(
+                prev['tab'][a] == v and prev['stored'][a] == v
+                for a, v in last['code'].items() if v >= 0)
+            if not converged:
+                continue
+            if s['writes'] or s['outcome'] != 'ok' or 'evolving' in s['signals']:
+                report.fail({'class': 'rerun-not-noop'},
+                            {'history': _hist_label(rec['hist']), 'writes': s['writes'],
+                             'outcome': s['outcome'], 'error': s['error_msg']})
+
+
+REGISTRY.update({'C04': c04})
+
+
+def _append_retry(rec):
+    import copy
+    rec = copy.deepcopy(rec)
+    if rec['hist'][-1]['op'] == 'fault':
+        rec['hist'].append({'op': 'run', 'drv': 'api'})
+    return rec
+
+
+def _judge_failed_run(report, rr, label, ri, histories, where):
+    """C07 oracle for one run in which the injected fault fired."""
+    s = rr['summary']
+    pre, post = rr['pre'], rr['post']
+    fault = rr['fault']
+    a = fault['app']
+    detail = {'history': label, 'run': ri, 'fault': fault, 'pre': pre, 'post': post,
+              'error': s['error_msg'], 'where': where,
+              'spec_clause_FailedRunIsInvisible': _clause_hits(rr, 'FailedRunIsInvisible')}
+    if s['outcome'] == 'ok':
+        report.fail({'class': 'fault-swallowed'}, detail)
+        return
+    if post['tab'][a] != pre['tab'][a] or post['tab'][a] == -2:
+        report.fail({'class': 'failed-evolution-left-changes',
+                     'partial': post['tab'][a] == -2, 'phase': fault['phase']}, detail)
+    # Evolver.__init__ installs the baseline Version row on an empty database
+    if post['stored'] != pre['stored'] or post['nver'] != max(pre['nver'], 1):
+        report.fail({'class': 'failed-run-changed-signature'}, detail)
+    if post['evo'] != pre['evo']:
+        report.fail({'class': 'failed-run-recorded-evolutions'}, detail)
+    fired = s['fault_fired']
+    if rr['drv'] == 'api':
+        last = s['last_sql']
+        if s['error'] != 'EvolutionExecutionError':
+            report.fail({'class': 'wrong-error-type', 'type': s['error']}, detail)
+        elif not last or not fired or last[0] != fired['sql']:
+            report.fail({'class': 'error-does-not-name-statement'},
+                        dict(detail, last_sql=last, fired=fired))
+    else:
+        if s['error'] != 'CommandError':
+            report.fail({'class': 'wrong-error-type', 'type': s['error']}, detail)
+
+
+def _judge_retry(report, rr, prev, label, ri, histories, oracles):
+    """The fault-free retry after a failed run must converge."""
+    s = rr['summary']
+    code = rr['code']
+    post = rr['post']
+    detail = {'history': label, 'run': ri, 'code': code, 'pre': rr['pre'], 'post': post,
+              'error': s['error_msg']}
+    # tables an earlier unit of the failed run committed, with no stored signature
+    lag = sorted(a for a in code if code[a] >= 0 and rr['pre']['tab'][a] >= 0
+                 and rr['pre']['stored'][a] == -1)
+    fp_extra = {'earlier_unit_committed': bool(lag)}
+    if s['outcome'] != 'ok':
+        report.fail(dict({'class': 'retry-failed'}, **fp_extra), detail)
+        return
+    for a, v in code.items():
+        if v < 0:
+            continue
+        if post['tab'][a] != v:
+            report.fail(dict({'class': 'retry-schema-differs'}, **fp_extra), dict(detail, app=a))
+        if post['stored'][a] != v:
+            report.fail(dict({'class': 'retry-signature-not-current',
+                              'app_lagging': a in lag}, **fp_extra), dict(detail, app=a))
+        labels = sorted(r[1] for r in post['evo'] if r[0] == a)
+        if labels != list(range(1, v + 1)):
+            report.fail(dict({'class': 'retry-recorded-labels-differ'}, **fp_extra),
+                        dict(detail, app=a, labels=labels))
+
+
+def c07(tier, replay=None):
+    report = Report('C07', tier, level='fault_enumeration')
+    maxver, maxruns, limit = (2, 2, 50) if tier == 'quick' else (3, 3, 500)
+    chosen, results, histories, oracles, ngen = _run_histories(
+        report, tier, maxver, maxruns, limit, faults=True, want_fault=True,
+        extend=_append_retry)
+    nontrivial = set()
+    fired = 0
+    for rec, runrecs in zip(chosen, results):
+        label = _hist_label(rec['hist'])
+        report.coverage['evaluations'] += 1
+        prev_failed = None
+        for ri, rr in enumerate(runrecs):
+            if 'summary' not in rr:
+                continue
+            if rr.get('fault') is not None and rr['summary']['fault_fired']:
+                fired += 1
+                nontrivial.add((label, ri))
+                _judge_failed_run(report, rr, label, ri, histories, 'tlc-history')
+                prev_failed = rr
+            elif prev_failed is not None and rr.get('fault') is None:
+                _judge_retry(report, rr, prev_failed, label, ri, histories, oracles)
+                prev_failed = None
+        report.sample({'history': label,
+                       'runs': [{'fault': rr.get('fault'), 'outcome': rr.get('summary', {}).get('outcome'),
+                                 'error': rr.get('summary', {}).get('error'),
+                                 'post': rr.get('post')} for rr in runrecs]}, limit=4)
+    _trace_rejections(report, 'C07', chosen, results)
+    # Part B: every concrete statement index of single-unit upgrades
+    n_b = _fault_every_statement(report, tier, nontrivial)
+    report.coverage['distinct_nontrivial'] = len(nontrivial)
+    report.coverage['rule'] = (
+        'Part A: TLC explores Evolver.tla with a fault at every abstract statement of every unit '
+        '(create / evolve x app x statement); %d of %d fault histories were replayed (dry run to '
+        'locate the statement, then the faulted run, then a fault-free retry), traced and validated '
+        'by EvolverTrace (FailedRunIsInvisible et al. evaluated after every event). Part B: for %d '
+        'single-unit upgrades every concrete statement index k=1..N was made to fail. '
+        'Non-trivial = a run in which the injected fault fired; distinct = (history, run) / (upgrade, k).'
+        % (len(chosen), ngen, n_b))
+    report.assumptions += [
+        'faults are OperationalError raised by connection.execute_wrapper before the statement executes',
+        'only statements that change schema or data of application tables are fault points',
+    ]
+    return report.finish()
+
+
+def _fault_every_statement(report, tier, nontrivial):
+    """C07 quantifier: every statement index k of a single-unit upgrade."""
+    from concurrent.futures import ThreadPoolExecutor
+    from .engines import runs
+    maxver = 3 if tier == 'quick' else 4
+    histories = runs.make_histories(maxver, variant=0)
+    oracles = runs.Oracles(histories)
+    oracles.compute()
+    upgrades = []
+    for a in ('a1', 'a2'):
+        for lo in range(0, maxver):
+            for hi in range(lo + 1, maxver + 1):
+                if tier == 'quick' and hi - lo > 2:
+                    continue
+                upgrades.append((a, lo, hi))
+        upgrades.append((a, -1, maxver if tier != 'quick' else 2))      # fresh creation
+    jobs = []
+
+    def plan(up):
+        a, lo, hi = up
+        base = []
+        if lo >= 0:
+            base = [{'op': 'deploy', 'app': a, 'ver': lo}, {'op': 'run', 'drv': 'api'}]
+        hist = base + [{'op': 'deploy', 'app': a, 'ver': hi}, {'op': 'run', 'drv': 'api'}]
+        out = runs.execute_history(hist, histories, oracles)
+        last = out[-1]
+        apps = set(h.app for h in histories.values())
+        stm = runs.attribute_statements(last.get('events', []), apps)
+        return up, hist, [s['index'] for s in stm if s['phase'] in ('create', 'evolve')]
+    with ThreadPoolExecutor(12) as ex:
+        plans = list(ex.map(plan, upgrades))
+    for up, hist, idxs in plans:
+        for k in idxs:
+            jobs.append((up, hist, k))
+
+    def one(job):
+        up, hist, k = job
+        h2 = hist[:-1] + [{'op': 'run', 'drv': 'api' if k % 2 else 'cmd', 'fault_at': k},
+                          {'op': 'run', 'drv': 'api'}]
+        return job, _execute_with_fault_index(h2, histories, oracles)
+    with ThreadPoolExecutor(12) as ex:
+        for (up, hist, k), runrecs in ex.map(one, jobs):
+            label = 'upgrade %s %d->%d fault at statement %d' % (up[0], up[1], up[2], k)
+            report.coverage['evaluations'] += 1
+            failed = [rr for rr in runrecs if rr.get('fault') is not None]
+            if not failed or not failed[0]['summary']['fault_fired']:
+                continue
+            nontrivial.add(label)
+            rr = failed[0]
+            _judge_failed_run(report, rr, label, runrecs.index(rr), histories, 'every-k')
+            if runrecs[-1] is not rr and 'summary' in runrecs[-1]:
+                _judge_retry(report, runrecs[-1], rr, label, len(runrecs) - 1, histories, oracles)
+            report.coverage['traces_validated_against_impl'] += 1
+    return len(upgrades)
+
+
+def _execute_with_fault_index(hist, histories, oracles):
+    """execute_history, but the faulted run carries a concrete statement index."""
+    from .djproj import Project
+    from .engines import runs
+    fault_queue = [op.get('fault_at') for op in hist if op['op'] == 'run']
+    clean = [{k: v for k, v in op.items() if k != 'fault_at'} for op in hist]
+    return _exec_with(runs, clean, histories, oracles, Project, fault_queue)
+
+
+def _exec_with(runs, hist, histories, oracles, project_cls, fault_queue):
+    """A copy of the driver loop of execute_history for concrete fault indices."""
+    import copy
+    project = project_cls([h.app for h in histories.values()], tag='fk')
+    code = {a: -1 for a in histories}
+    out = []
+    qi = 0
+    try:
+        project.set_installed([])
+        state = copy.deepcopy(runs.EMPTY_STATE)
+        for op in hist:
+            if op['op'] == 'deploy':
+                code[op['app']] = op['ver']
+                histories[op['app']].deploy(project, op['ver'])
+                project.set_installed([histories[x].app for x in histories if code[x] >= 0])
+                continue
+            drv = op['drv']
+            if drv == 'api':
+                request = {'action': 'evolve_api', 'emit_prepared': True}
+            else:
+                request = {'action': 'command', 'name': 'evolve', 'emit_prepared': True,
+                           'options': {'execute': True, 'interactive': False, 'verbosity': 0}}
+            k = fault_queue[qi] if qi < len(fault_queue) else None
+            qi += 1
+            if k is not None:
+                request['fault'] = {'at': k}
+            res = project.run(request)
+            if res.get('outcome') == 'runner-crash':
+                out.append({'crash': res})
+                break
+            post = runs.observed_state(res, histories, oracles)
+            rec = {'request': request, 'code': dict(code), 'drv': drv, 'pre': state,
+                   'post': post,
+                   'fault': ({'phase': 'k', 'app': [a for a in code if code[a] >= 0][0],
+                              'stmt': k} if k is not None else None)}
+            if k is not None and res.get('fault_fired'):
+                apps = set(h.app for h in histories.values())
+                # which app does the failing statement belong to?
+                rapps = {h.app: a for a, h in histories.items()}
+                import re as _re
+                m = _re.search(r'"(\w+?)_', res['fault_fired']['sql'])
+                if m and m.group(1) in rapps:
+                    rec['fault']['app'] = rapps[m.group(1)]
+            rec['summary'] = {
+                'outcome': res['outcome'],
+                'error': (res.get('error') or {}).get('type'),
+                'error_msg': (res.get('error') or {}).get('msg'),
+                'last_sql': (res.get('error') or {}).get('last_sql_statement'),
+                'fault_fired': res.get('fault_fired'),
+                'required': res.get('required'), 'lock': res.get('lock'),
+                'signals': [e['ev'] for e in res['events']
+                            if e['ev'] in ('evolving', 'evolved', 'evolving_failed')],
+                'writes': [e['sql'][:80] for e in res['events'] if e['ev'] in ('stmt', 'book')],
+            }
+            rec['events'] = res['events']
+            out.append(rec)
+            state = post
+    finally:
+        project.destroy()
+    return out
+
+
+REGISTRY.update({'C07': c07})
+
+
+def _signals_of(rr):
+    return [e for e in rr.get('events', []) if e['ev'] in (
+        'evolving', 'evolved', 'evolving_failed', 'applying_evolution',
+        'applied_evolution', 'applying_migration', 'applied_migration',
+        'creating_models', 'created_models', 'stmt', 'stmt_fail', 'book',
+        'constructed', 'prepared')]
+
+
+def c17(tier, replay=None):
+    report = Report('C17', tier)
+    maxver, maxruns, limit = (2, 2, 60) if tier == 'quick' else (3, 3, 600)
+    chosen, results, histories, oracles, ngen = _run_histories(
+        report, tier, maxver, maxruns, limit, faults=True)
+    apps = set(h.app for h in histories.values())
+    nontrivial = set()
+    clauses = ('EvolvingAtMostOnce', 'EvolvingBeforeAnyChange', 'ExactlyOneTerminalSignal',
+               'EvolvedIffSaved', 'PairedUnlessFailed', 'NoTerminalWithoutEvolving')
+    for rec, runrecs in zip(chosen, results):
+        label = _hist_label(rec['hist'])
+        for ri, rr in enumerate(runrecs):
+            if 'summary' not in rr:
+                continue
+            report.coverage['evaluations'] += 1
+            s = rr['summary']
+            evs = _signals_of(rr)
+            # only what happens after the Evolver was constructed
+            for i, e in enumerate(evs):
+                if e['ev'] == 'constructed':
+                    evs = evs[i + 1:]
+                    break
+            names = [e['ev'] for e in evs]
+            detail = {'history': label, 'run': ri, 'fault': rr.get('fault'),
+                      'outcome': s['outcome'], 'signals': [n for n in names if n not in ('stmt', 'book')]}
+            if any(n.startswith(('applying', 'creating')) for n in names):
+                nontrivial.add((label, ri))
+            n_evolving = names.count('evolving')
+            if n_evolving > 1:
+                report.fail({'class': 'evolving-twice'}, detail)
+            if n_evolving:
+                first = names.index('evolving')
+                if any(n in ('stmt', 'book') for n in names[:first]):
+                    report.fail({'class': 'change-before-evolving'}, detail)
+                terminal = names.count('evolved') + names.count('evolving_failed')
+                if terminal != 1:
+                    report.fail({'class': 'terminal-signal-count', 'count': terminal}, detail)
+            elif names.count('evolved') + names.count('evolving_failed'):
+                report.fail({'class': 'terminal-without-evolving'}, detail)
+            returned_ok = s['outcome'] == 'ok'
+            if ('evolved' in names) != (returned_ok and n_evolving == 1):
+                report.fail({'class': 'evolved-vs-return', 'evolved': 'evolved' in names,
+                             'returned_ok': returned_ok}, detail)
+            if 'evolved' in names:
+                code, post = rr['code'], rr['post']
+                for a, v in code.items():
+                    if v >= 0 and post['stored'][a] != v and not (
+                            rr['pre']['tab'][a] >= 0 and rr['pre']['stored'][a] == -1):
+                        report.fail({'class': 'evolved-but-not-saved'}, dict(detail, app=a))
+            # pairing and payload truthfulness
+            open_sig = None
+            for e in evs:
+                ev = e['ev']
+                if ev in ('applying_evolution', 'creating_models', 'applying_migration'):
+                    if open_sig is not None and not (ev == 'creating_models' and
+                                                     open_sig['ev'] == 'creating_models'):
+                        report.fail({'class': 'nested-or-unclosed-signal'}, dict(detail, at=e))
+                    if open_sig is None or ev != 'creating_models':
+                        open_sig = dict(e, stmts=0, group=[e])
+                    else:
+                        open_sig['group'].append(e)
+                elif ev in ('applied_evolution', 'created_models', 'applied_migration'):
+                    want = {'applied_evolution': 'applying_evolution',
+                            'created_models': 'creating_models',
+                            'applied_migration': 'applying_migration'}[ev]
+                    if open_sig is None or open_sig['ev'] != want:
+                        report.fail({'class': 'counterpart-without-opening'}, dict(detail, at=e))
+                    else:
+                        if ev == 'applied_evolution' and (
+                                e.get('app') != open_sig.get('app') or
+                                e.get('labels') != open_sig.get('labels')):
+                            report.fail({'class': 'payload-mismatch'}, dict(detail, at=e))
+                        if ev == 'applied_evolution' and open_sig['stmts'] == 0:
+                            report.fail({'class': 'applied-without-sql'}, dict(detail, at=e))
+                        if ev == 'created_models':
+                            open_sig['group'].pop(0)
+                            if open_sig['group']:
+                                continue
+                        open_sig = None
+                elif ev in ('stmt', 'stmt_fail'):
+                    if open_sig is None:
+                        if e.get('kind') in ('ddl', 'dml'):
+                            sql = e.get('sql', '')
+                            created = [x.get('app') for x in evs if x['ev'] == 'created_models']
+                            deferred = (sql.lstrip().upper().startswith(('CREATE INDEX', 'CREATE UNIQUE INDEX'))
+                                        and any(' ON "%s_' % a in sql for a in created if a))
+                            report.fail({'class': 'sql-outside-signal-window',
+                                         'deferred_sql_of_created_model': bool(deferred)},
+                                        dict(detail, sql=sql))
+                    else:
+                        open_sig['stmts'] += 1
+                        if open_sig['ev'] == 'applying_evolution' and open_sig.get('app') in apps:
+                            if '"%s_' % open_sig['app'] not in e.get('sql', '') and \
+                                    'TEMP_TABLE' not in e.get('sql', ''):
+                                report.fail({'class': 'sql-of-another-app-in-window'},
+                                            dict(detail, sql=e.get('sql'), window=open_sig.get('app')))
+            if open_sig is not None and returned_ok:
+                report.fail({'class': 'unpaired-signal-on-success'}, detail)
+            lock = s.get('lock')
+            if lock and lock[0] != lock[1]:
+                report.fail({'class': 'evolve-lock-not-restored', 'outcome': s['outcome']},
+                            dict(detail, lock=lock))
+            for c in clauses:
+                if _clause_hits(rr, c):
+                    report.fail({'class': 'spec-clause', 'clause': c}, detail)
+        report.sample({'history': label, 'signals_of_last_run':
+                       [e['ev'] for e in _signals_of(runrecs[-1]) if e['ev'] not in ('stmt', 'book')]
+                       if runrecs and 'events' in runrecs[-1] else None}, limit=5)
+    _trace_rejections(report, 'C17', chosen, results)
+    report.coverage['distinct_nontrivial'] = len(nontrivial)
+    report.coverage['exhaustive'] = len(chosen) == ngen
+    report.coverage['rule'] = (
+        'TLC explores Evolver.tla with faults; %d of %d histories replayed; every run recorded '
+        '(nine signals interleaved with statements and commits) and validated by EvolverTrace, the '
+        'signal invariants evaluated after every event; plus direct pairing/payload checks on the '
+        'recorded stream. Non-trivial = a run that emitted at least one applying/creating signal.'
+        % (len(chosen), ngen))
+    report.assumptions += ['signals observed through receivers connected with weak=False']
+    return report.finish()
+
+
+def c08(tier, replay=None):
+    report = Report('C08', tier)
+    maxver, maxruns, limit = (2, 3, 50) if tier == 'quick' else (3, 4, 500)
+    chosen, results, histories, oracles, ngen = _run_histories(
+        report, tier, maxver, maxruns, limit, faults=True)
+    nontrivial = set()
+    for rec, runrecs in zip(chosen, results):
+        label = _hist_label(rec['hist'])
+        report.coverage['evaluations'] += 1
+        if sum(1 for op in rec['hist'] if op['op'] == 'run') >= 2:
+            nontrivial.add(label)
+        executed = {}        # (app, label) -> completed executions across runs
+        for ri, rr in enumerate(runrecs):
+            if 'summary' not in rr:
+                continue
+            s = rr['summary']
+            pre, post = rr['pre'], rr['post']
+            detail = {'history': label, 'run': ri, 'code': rr['code'], 'outcome': s['outcome'],
+                      'evo_before': pre['evo'], 'evo_after': post['evo']}
+            lagging = sorted(a for a in rr['code'] if rr['code'][a] >= 0 and
+                             pre['tab'][a] >= 0 and pre['stored'][a] == -1)
+            rows = [(r[0], r[1]) for r in post['evo']]
+            dups = sorted(set(x for x in rows if rows.count(x) > 1))
+            if dups:
+                report.fail({'class': 'label-recorded-twice',
+                             'app_had_tables_without_signature': any(d[0] in lagging for d in dups)},
+                            dict(detail, duplicates=dups))
+            if s['outcome'] != 'ok' and post['evo'] != pre['evo']:
+                report.fail({'class': 'recorded-by-incomplete-run'}, detail)
+            if s['outcome'] == 'ok':
+                new_rows = post['evo'][len(pre['evo']):]
+                if post['evo'][:len(pre['evo'])] != pre['evo']:
+                    report.fail({'class': 'earlier-rows-changed'}, detail)
+                if new_rows and any(r[2] != post['nver'] for r in new_rows) and \
+                        not (pre['nver'] == 0):
+                    report.fail({'class': 'rows-not-attached-to-run-version'},
+                                dict(detail, new_rows=new_rows, nver=post['nver']))
+            if any(r[2] < 1 or r[2] > post['nver'] for r in post['evo']):
+                report.fail({'class': 'row-references-missing-version'}, detail)
+            # executions
+            evs = rr.get('events', [])
+            fresh_apps = set()
+            for e in evs:
+                if e['ev'] == 'prepared':
+                    fresh_apps = set(e.get('create', []))
+            for e in evs:
+                if e['ev'] == 'applied_evolution':
+                    for lab in e['labels']:
+                        key = (e['app'], lab)
+                        executed[key] = executed.get(key, 0) + 1
+                        if executed[key] > 1:
+                            report.fail({'class': 'evolution-executed-twice'},
+                                        dict(detail, evolution=key))
+                        if any(r[0] == {h.app: a for a, h in histories.items()}.get(e['app'])
+                               and 'e%d' % r[1] == lab for r in pre['evo']):
+                            report.fail({'class': 'recorded-evolution-executed-again'},
+                                        dict(detail, evolution=key))
+                    if e['app'] in fresh_apps:
+                        report.fail({'class': 'fresh-app-executed-evolutions'},
+                                    dict(detail, app=e['app']))
+            if s['outcome'] == 'ok':
+                rapps = {h.app: a for a, h in histories.items()}
+                for app in fresh_apps:
+                    a = rapps.get(app)
+                    if a is None:
+                        continue
+                    labels = sorted(r[1] for r in post['evo'] if r[0] == a)
+                    if labels != list(range(1, rr['code'][a] + 1)):
+                        report.fail({'class': 'fresh-app-sequence-not-recorded'},
+                                    dict(detail, app=a, labels=labels))
+            for c in ('RecordedAtMostOnce', 'RecordedWithinVersions', 'RecordedOnlyWithTables'):
+                if _clause_hits(rr, c):
+                    report.fail({'class': 'spec-clause', 'clause': c,
+                                 'app_had_tables_without_signature': bool(lagging)}, detail)
+        report.sample({'history': label,
+                       'evolution_rows_after_each_run': [rr.get('post', {}).get('evo') for rr in runrecs]},
+                      limit=5)
+    _trace_rejections(report, 'C08', chosen, results)
+    report.coverage['distinct_nontrivial'] = len(nontrivial)
+    report.coverage['exhaustive'] = len(chosen) == ngen
+    report.coverage['rule'] = (
+        'TLC explores Evolver.tla (2 apps sharing labels e1..en, partial upgrades, no-op re-runs, '
+        'failed runs, api and command drivers); %d of %d histories replayed; Evolution rows read as '
+        'a bag after every run, applied_evolution signals counted per label across the history; '
+        'traces validated by EvolverTrace (RecordedAtMostOnce, RecordedWithinVersions, '
+        'RecordedOnlyWithTables after every event). Non-trivial = at least two runs.'
+        % (len(chosen), ngen))
+    return report.finish()
+
+
+REGISTRY.update({'C17': c17, 'C08': c08})
